@@ -1,0 +1,78 @@
+// SPDX-FileCopyrightText: 2026 The Pion community <https://pion.ly>
+// SPDX-License-Identifier: MIT
+
+//go:build verif
+
+package ice
+
+import (
+	"context"
+	"net"
+	"net/netip"
+
+	"github.com/pion/logging"
+)
+
+// Exports for the external verification harness (/verif), property C14 (ICE-TCP framing).
+// Built only with -tags verif. Add-only: thin wrappers, no behaviour of their own.
+
+// VerifFramingReceiveMTU is receiveMTU, the buffer size used by every reader loop.
+const VerifFramingReceiveMTU = receiveMTU
+
+// VerifFramingHeaderLen is streamingPacketHeaderLen.
+const VerifFramingHeaderLen = streamingPacketHeaderLen
+
+// VerifFramingRead calls readStreamingPacket.
+func VerifFramingRead(conn net.Conn, buf []byte) (int, error) {
+	return readStreamingPacket(conn, buf)
+}
+
+// VerifFramingWrite calls writeStreamingPacket.
+func VerifFramingWrite(conn net.Conn, buf []byte) (int, error) {
+	return writeStreamingPacket(conn, buf)
+}
+
+type verifFramingNullLogger struct{}
+
+func (verifFramingNullLogger) Trace(string)          {}
+func (verifFramingNullLogger) Tracef(string, ...any) {}
+func (verifFramingNullLogger) Debug(string)          {}
+func (verifFramingNullLogger) Debugf(string, ...any) {}
+func (verifFramingNullLogger) Info(string)           {}
+func (verifFramingNullLogger) Infof(string, ...any)  {}
+func (verifFramingNullLogger) Warn(string)           {}
+func (verifFramingNullLogger) Warnf(string, ...any)  {}
+func (verifFramingNullLogger) Error(string)          {}
+func (verifFramingNullLogger) Errorf(string, ...any) {}
+
+var _ logging.LeveledLogger = verifFramingNullLogger{}
+
+// VerifFramingPacketConn wraps a tcpPacketConn (the passive side's net.PacketConn over TCP conns).
+type VerifFramingPacketConn struct {
+	c *tcpPacketConn
+}
+
+// VerifFramingNewPacketConn builds a tcpPacketConn as TCPMuxDefault.createConn does
+// (readBuffer = TCPMuxParams.ReadBufferSize, writeBuffer = TCPMuxParams.WriteBufferSize), no alive timer.
+func VerifFramingNewPacketConn(readBuffer, writeBuffer int, local net.Addr) *VerifFramingPacketConn {
+	return &VerifFramingPacketConn{c: newTCPPacketConn(tcpPacketParams{
+		ReadBuffer:  readBuffer,
+		WriteBuffer: writeBuffer,
+		LocalAddr:   local,
+		Logger:      verifFramingNullLogger{},
+	})}
+}
+
+// AddConn attaches a TCP conn (what TCPMuxDefault.handleConn does after the first packet).
+func (p *VerifFramingPacketConn) AddConn(conn net.Conn, firstPacket []byte) error {
+	return p.c.AddConn(conn, firstPacket)
+}
+
+// PacketConn returns the tcpPacketConn as the net.PacketConn the agent uses.
+func (p *VerifFramingPacketConn) PacketConn() net.PacketConn { return p.c }
+
+// VerifFramingNewActiveConn calls newActiveTCPConn (the active side: dials remote, then runs
+// the reader and writer loops over the dialled conn).
+func VerifFramingNewActiveConn(ctx context.Context, local string, remote netip.AddrPort) net.PacketConn {
+	return newActiveTCPConn(ctx, local, remote, verifFramingNullLogger{})
+}
